@@ -3,7 +3,10 @@
 Correspondence K_C12 + monitor (DESIGN.md, C12).
 
 The real `Network` (plus the real `SoulSeekClient.execute` body, the real connection objects'
-`_perform_message_callback`) runs on `vlib.simloop.SimLoop`. One *driving task* D executes the
+`_perform_message_callback` and — in the handler families — their real `_message_reader_loop`, one task per
+connection, with only the source of decoded messages stubbed) runs on `vlib.simloop.SimLoop`.  Messages may carry
+*programs* for the listeners of `MessageReceivedEvent` (and for a stand-in at the position of the Network's own
+`_MESSAGE_MAP` handler): what the handlers of that message do between its arrival and the completion of its waiters. One *driving task* D executes the
 script: every round it performs a batch of synchronous operations inside ONE task step (creating
 raw futures, spawning caller tasks, delivering messages "buffered back-to-back", cancelling) and
 then yields with `asyncio.sleep(0)`; caller timeouts are made due by moving the virtual clock so
@@ -18,7 +21,9 @@ case = {'rounds': [{'batch': [op...], 'fire': [tag...]}...], 'kind': str, 'reade
      | ['feed', conn, cls, [[field, val]...], progs]    the message goes into the connection's stream: the connection's
                                                         REAL `_message_reader_loop` (one task per connection, message
                                                         source stubbed) takes it when it is free and not closing
-     | ['open', gate] | ['cancelfut', tag] | ['canceltask', tag]
+     | ['open', gate] | ['close', conn] (D awaits conn.disconnect()) | ['cancelfut', tag] | ['canceltask', tag]
+  'own': True — the first program of every message is run by a handler in Network._MESSAGE_MAP (the position of the
+          Network's own handlers, before the bus emit) instead of by the first bus listener
   progs = [prog of MessageReceivedEvent listener 0, prog of listener 1, ...]  — what the handlers of THIS message do
           between its arrival and the completion of its waiters; prog = [act...]
   act = ['sleep', k] (k loop iterations) | ['gate', g] | ['close', conn] (await conn.disconnect())
@@ -115,7 +120,7 @@ def _validate(case: dict):
                 assert not case.get('readers'), 'msg (delivered by the driving task) and reader tasks are not mixed'
             if op[0] == 'feed':
                 assert case.get('readers'), 'feed needs reader tasks'
-            if op[0] in ('msg', 'feed'):
+            if op[0] in ('msg', 'feed', 'close'):
                 assert op[1] in CONN_NAMES, 'connection'
             for prog in progs:
                 for a in prog:
@@ -127,6 +132,8 @@ def _validate(case: dict):
                             assert a[2] in (0, 1), 'exec made by a handler: mode 0 / 1'
                     elif a[0] in ('sleep', 'gate', 'nwait', 'nexec') and op[0] == 'msg':
                         raise AssertionError('a handler of a message delivered by the driving task must not suspend')
+                    if a[0] == 'raise' and case.get('own') and prog is progs[0]:
+                        raise AssertionError('the stand-in for the Network\'s own handler does not raise')
                     if a[0] == 'sleep':
                         assert 0 <= a[1] <= 4
                     if a[0] == 'close':
@@ -497,6 +504,14 @@ def _run_impl(case: dict) -> dict:
             return listener
 
         listeners = [make_listener(j) for j in range(nlisteners)]
+        if case.get('own') and listeners:
+            # program 0 runs where the Network's own handlers run: from _MESSAGE_MAP, before the bus emit
+            own = listeners.pop(0)
+
+            async def own_handler(message, connection):
+                await own(types.SimpleNamespace(message=message, connection=connection))
+            for cls in msg_classes.values():
+                net._MESSAGE_MAP[cls] = own_handler
         for l in listeners:
             bus.register(MessageReceivedEvent, l)
         keep.append(listeners)
@@ -605,6 +620,8 @@ def _run_impl(case: dict) -> dict:
                     g = gate(op[1])
                     if not g.done():
                         g.set_result(None)
+                elif kind == 'close':
+                    await conn_of(op[1]).disconnect(CloseReason.REQUESTED)      # (does not suspend here)
                 elif kind == 'cancelfut':
                     cancel_fut(op[1])
                 elif kind == 'canceltask':
@@ -774,8 +791,11 @@ def _message_obligations(case: dict, impl: dict, reqs: dict, final_futs: dict, a
             cands = list(cancel_keys.get(tag, []))
             if tag in fire_key:
                 cands.append(fire_key[tag])
-            if s1.startswith('R') and s1[1:].isdigit() and int(s1[1:]) in ret:
-                cands.append(ret[int(s1[1:])][0])
+            if s1.startswith('R') and s1[1:].isdigit():
+                if int(s1[1:]) < n:
+                    continue        # completed by a message that had arrived earlier: the first match, whenever it finished
+                if int(s1[1:]) in ret:
+                    cands.append(ret[int(s1[1:])][0])      # overtaken by a later message: only while #n's handlers ran
             excused = s1 != 'P' and any(s < k < e for k in cands for (s, e) in intervals)
             if not excused:
                 if er is None:
@@ -785,7 +805,8 @@ def _message_obligations(case: dict, impl: dict, reqs: dict, final_futs: dict, a
                     how = 'its handlers returned and on_message_received ended'
                 add('C12-missed-completion',
                     f'message #{n} answers request {tag}, which was pending when it arrived; {how}; the request is '
-                    f'{s1} (nothing ended it while the handlers of #{n} ran)', dict(where, request=tag, state=s1),
+                    f'{s1} (no cancellation / timeout / other reply of the script ended it while the handlers of #{n} ran)',
+                    dict(where, request=tag, state=s1),
                     f'R{n}')
 
 
@@ -798,6 +819,7 @@ def _monitor(case: dict, impl: dict) -> list[Violation]:
     cancelled_task: set[int] = set()
     fired_pending: set[int] = set()      # timeout fired while the future was still pending
     fired_waiting: set[int] = set()      # timeout fired while the caller was still waiting
+    natural: dict[int, str] = {}         # … with its future done already: the answer the future itself gives
     rounds = _rounds(case)
     prev = {'n': 0, 'e': 0, 'order': [], 'w': {}}
     begin_prev: Optional[dict] = None    # snapshot at the previous round begin
@@ -834,8 +856,9 @@ def _monitor(case: dict, impl: dict) -> list[Violation]:
             where = {'round': r, 'op': op, 'before': impl['snaps'][i - 1] if i else None, 'after': impl['snaps'][i]}
             stable(prev, cur, where)
             if cur['e'] > prev['e']:
-                add('C12-invalid-state', '"error during callback": on_message_received raised while completing '
-                    'expected responses; waiters after the failing one are skipped', where, 'no internal error')
+                add('C12-invalid-state', '"error during callback": on_message_received raised (while its handlers ran or '
+                    'while it completed expected responses); the waiters it had not completed yet are skipped', where,
+                    'no internal error')
             prev = cur
             i += 1
         # the yield: timeouts of rnd['fire'] fire, callbacks run, next iteration up to the driving task
@@ -848,10 +871,16 @@ def _monitor(case: dict, impl: dict) -> list[Violation]:
                 fired_waiting.add(tag)
                 if f0 == 'P':
                     fired_pending.add(tag)
+                else:
+                    # the future was done already but its caller had not been woken when the driving task looked: the
+                    # wake-up may still run in this iteration, before the timer (which runs last) — then the caller
+                    # gets the future's own answer and the timer is dropped
+                    natural[tag] = 'r' + f0[1:] if f0.startswith('R') else {'C': 'C', 'X': 'T'}.get(f0, 'T')
         stable(prev, cur, where)
         if cur['e'] > prev['e']:
-            add('C12-invalid-state', '"error during callback": on_message_received raised while completing '
-                'expected responses; waiters after the failing one are skipped', where, 'no internal error')
+            add('C12-invalid-state', '"error during callback": on_message_received raised (while its handlers ran or '
+                'while it completed expected responses); the waiters it had not completed yet are skipped', where,
+                'no internal error')
         # residue: a future that was done at the previous round begin is not listed one iteration later
         if begin_prev is not None:
             for tag, (f0, _o) in begin_prev['w'].items():
@@ -864,9 +893,9 @@ def _monitor(case: dict, impl: dict) -> list[Violation]:
 
     final = snaps[-1]
     _message_obligations(case, impl, reqs, {t: f for t, (f, _o) in final['w'].items()}, add)
-    if len(impl['snaps']) >= 4 and len(set(impl['snaps'][-4:])) != 1:
+    if 'extra' in case and len(impl['snaps']) >= 3 and len(set(impl['snaps'][-3:])) != 1:
         # the script ended while things were still moving (a harness matter): the rules below speak of quiescence
-        add('C12-harness-impl-error', 'the script does not reach quiescence within its extra rounds', impl['snaps'][-4:])
+        add('C12-harness-impl-error', 'the script does not reach quiescence within its extra rounds', impl['snaps'][-3:])
         return vs
     # a call of on_message_received that is over although its handlers are not, or the reverse, is caught above through
     # its waiters; a call that never ends without any handler of its own running blocks the connection's reader for good
@@ -878,7 +907,7 @@ def _monitor(case: dict, impl: dict) -> list[Violation]:
         elif o.startswith('E:') or o == 'r?':
             add('C12-internal-error', f'caller of request {tag} got {o}', impl['snaps'][-1])
         if tag in fired_waiting and tag not in cancelled_task:
-            ok = {'T'} | ({'r' + f[1:]} if f.startswith('R') and tag not in fired_pending else set())
+            ok = {'T'} | ({natural[tag]} if tag in natural else set())
             if o not in ok and o != 'I':
                 add('C12-timeout-not-timeout', f'timeout of request {tag} fired but its caller got {o!r}',
                     impl['snaps'][-1], sorted(ok))
@@ -1223,7 +1252,7 @@ def _gen_hcase(rng: random.Random, kind: Optional[str] = None) -> dict:
         r = rng.randint(max(1, r0 + 1), nrounds - 2)
         rep = _reply_to(rng, m, 0.97)
         own = rep[0]
-        variant = rng.choice(['sync', 'sync', 'after-sleep', 'before-sleep', 'second-listener', 'other-conn'])
+        variant = rng.choice(['sync', 'sync', 'after-sleep', 'before-sleep', 'second-listener', 'other-conn', 'by-driver'])
         if variant == 'sync':
             progs = [[['close', own]]]
         elif variant == 'after-sleep':
@@ -1232,6 +1261,10 @@ def _gen_hcase(rng: random.Random, kind: Optional[str] = None) -> dict:
             progs = [[['close', own], ['sleep', rng.choice([1, 2])]]]
         elif variant == 'second-listener':
             progs = [gen_prog(r, own, rep) if rng.random() < 0.5 else [], [['close', own]]]
+        elif variant == 'by-driver':
+            # an ordinary task closes the connection while the reply's handler is suspended
+            progs = [[['sleep', 2]]]
+            later.setdefault(r + 1, []).append(['close', own])
         else:
             g = state['gate']
             state['gate'] += 1
@@ -1305,6 +1338,15 @@ def _gen_hcase(rng: random.Random, kind: Optional[str] = None) -> dict:
                 rounds[r]['batch'].append([mop, trip[0], trip[1], [list(x) for x in trip[2]], []])
     for r, ops in later.items():
         rounds[r]['batch'] += ops
+    if readers and rng.random() < 0.1:
+        rounds[rng.randint(1, nrounds - 1)]['batch'].append(['close', rng.choice(CONN_NAMES)])
+    own_pos = rng.random() < 0.25
+    if own_pos:
+        for rnd in rounds:
+            for op in rnd['batch']:
+                progs = _progs_of(op)
+                if progs:
+                    progs[0][:] = [a for a in progs[0] if a[0] != 'raise']
     # what the script really contains (actions may have been dropped while composing programs)
     actual = _requests_of({'rounds': rounds})
     by_h = [w for w in by_h if w[0] in actual]
@@ -1349,7 +1391,10 @@ def _gen_hcase(rng: random.Random, kind: Optional[str] = None) -> dict:
     # enough empty rounds afterwards for every suspended handler (one after the other per connection) to finish
     nsleep = sum(a[1] for rnd in rounds for op in rnd['batch'] for p in _progs_of(op) for a in p if a[0] == 'sleep')
     nmsg = sum(1 for rnd in rounds for op in rnd['batch'] if op[0] in ('msg', 'feed'))
-    return {'rounds': rounds, 'kind': kind, 'readers': readers, 'extra': min(60, 8 + nsleep + 2 * nmsg)}
+    case = {'rounds': rounds, 'kind': kind, 'readers': readers, 'extra': min(60, 8 + nsleep + 2 * nmsg)}
+    if own_pos:
+        case['own'] = True
+    return case
 
 
 _SREQ = {'cls': 's', 'msg': 1, 'peer': None, 'fields': [[4, 'c1']]}
@@ -1402,6 +1447,19 @@ DIRECTED_H = [
         {'batch': [['wait', 0, _SREQ]], 'fire': []}, _E,
         {'batch': [['feed', 's', 1, _SATTR, [[['sleep', 3]]]]], 'fire': [0]}, _E, _E]},
 ]
+
+
+def _corpus_cases() -> list[dict]:
+    """corpus/C12/*.json: generated cases that caught a seeded change of each handler class, and the inputs of
+    false alarms of this monitor (kept as regression cases); run on every check"""
+    import json
+    from pathlib import Path
+    out = []
+    for f in sorted((Path(__file__).resolve().parent.parent / 'corpus' / 'C12').glob('*.json')):
+        case = json.loads(f.read_text())['case']
+        case['kind'] = 'corpus-' + f.stem
+        out.append(case)
+    return out
 
 
 def _eval_case(case):
@@ -1552,7 +1610,7 @@ class C12(Property):
         rng = random.Random(f'C12-{seed}')
         n = (1200 if tier == 'quick' else 30000) * widen
         nh = (1600 if tier == 'quick' else 40000) * widen
-        cases = list(DIRECTED) + list(DIRECTED_H) + [_gen_case(rng) for _ in range(n)]
+        cases = list(DIRECTED) + list(DIRECTED_H) + _corpus_cases() + [_gen_case(rng) for _ in range(n)]
         rng_h = random.Random(f'C12-h-{seed}')
         cases += [_gen_hcase(rng_h) for _ in range(nh)]
         impl = common.parallel_map(_eval_case, cases)
